@@ -4,6 +4,7 @@
 package tally
 
 import (
+	"hash/maphash"
 	"io"
 	"time"
 
@@ -61,3 +62,13 @@ func VerifScopePrefix(s Scope) string { return s.(*scope).prefix }
 
 // VerifNumShards returns the registry shard count of the scope's root.
 func VerifNumShards(s Scope) int { return len(s.(*scope).registry.subscopes) }
+
+// VerifShardOf returns the index of the registry shard the given subscope key
+// hashes to (the registry's hash seed is random per root).
+func VerifShardOf(s Scope, key string) int {
+	r := s.(*scope).registry
+	var h maphash.Hash
+	h.SetSeed(r.seed)
+	_, _ = h.WriteString(key)
+	return int(h.Sum64() % uint64(len(r.subscopes)))
+}
